@@ -655,7 +655,8 @@ def run(tier, seed, out):
                    for r in list(pick.values())[:4]]
     out.rule = ("a case is one generated input of one part (pow: element x exponent x unit; euclid: "
                 "integer pair judged for extended_euclidean, gcd and lcm; fft: (length, kind, sign, "
-                "vector) over Z_p; poly: (operation, operands, mapper) judged clause by clause; quot: "
+                "vector) over Z_p; poly: (operation, operands, mapper = constant rule x selection of constants "
+                "x base name x parameter binding) judged clause by clause; quot: "
                 "integer pair); non-trivial = exponent >= 2 or negative / both integers non-zero / "
                 "length >= 2 / non-zero polynomial operand / denominator not in {0,1}; distinct by "
                 "canonical JSON digest of the case")
